@@ -98,6 +98,8 @@ func (m *c08Model) check(r *Run, s *Step, o *Outcome) []Violation {
 	site := c10Site(s, o)
 	if s.Kind == "run" {
 		site = m.programSite(r, s, o)
+	} else if is := m.inboundProgramSite(r, o); is != "" {
+		site = is
 	}
 	erc20Mod := authtypes.NewModuleAddress(erc20types.ModuleName)
 	pairs := w.App.Erc20Keeper.GetAllTokenPairs(ctx)
@@ -131,6 +133,12 @@ func (m *c08Model) check(r *Run, s *Step, o *Outcome) []Violation {
 		}
 		pairStart[p.Denom] = len(vs)
 		tok := p.GetERC20Contract()
+		if acc := w.App.EvmKeeper.GetAccount(ctx, tok); acc == nil || !acc.IsContract() {
+			// an externally-owned token destroyed itself: its books are gone with it; the pair is removed by
+			// the next conversion (the index checks below the loop still apply to what remains)
+			r.Probe("pair-with-destroyed-contract")
+			continue
+		}
 		ts := sdkmath.NewIntFromBigInt(w.ERC20TotalSupply(ctx, tok))
 		kind := "module-owned"
 		switch {
@@ -211,6 +219,12 @@ func (m *c08Model) check(r *Run, s *Step, o *Outcome) []Violation {
 			k := w.KeyByName(t.Tx.S)
 			denom := t.Tx.A.Str("denom")
 			amt := t.Tx.A.SdkInt("amount")
+			if _, still := w.App.Erc20Keeper.GetTokenPair(ctx, denom); !still {
+				// the message found the token contract destroyed: it succeeds only to persist the removal of the
+				// pair and converts nothing
+				r.Probe("conversion-removed-destroyed-pair")
+				continue
+			}
 			got := getOr0(m.balPre, k.Bech()+"|"+denom).Sub(w.App.BankKeeper.GetBalance(ctx, k.Acc(), denom).Amount)
 			if !got.Equal(amt) {
 				vs = append(vs, viol("conversion-exact", "convert_coin/sender", "%s converted %s %s, coin balance changed by -%s", t.Tx.S, amt, denom, got))
@@ -247,6 +261,80 @@ func (m *c08Model) check(r *Run, s *Step, o *Outcome) []Violation {
 	}
 	r.State(fmt.Sprintf("pairs%d", len(pairs)))
 	return vs
+}
+
+// inboundProgramSite: the step executed a parked inbound bridge call whose callee is one of the deployed
+// programs: the program ran (all actions enabled) inside the bridge call, which is the same situation as
+// a program run - classified the same way, under its own entry path.
+func (m *c08Model) inboundProgramSite(r *Run, o *Outcome) string {
+	st := bst(r)
+	if o == nil || st.Chk == nil || st.Chk.pre == nil {
+		return ""
+	}
+	for _, t := range o.Txs {
+		if t.Tx == nil || !t.Res.OK() {
+			continue
+		}
+		var n uint64
+		switch {
+		case t.Tx.K == "execute_claim":
+			n = t.Tx.A.U64("n")
+		case t.Tx.K == "eth_call" && t.Tx.A.Str("t") == "crosschain" && t.Tx.A.Str("m") == "executeClaim":
+			if p := strings.Split(t.Tx.A.Str("args"), "|"); len(p) == 2 {
+				fmt.Sscan(p[1], &n)
+			}
+		default:
+			continue
+		}
+		pre := st.Chk.pre[st.Chains[0].Name]
+		if pre == nil {
+			continue
+		}
+		cl, ok := pre.Pending[n].(*cctypes.MsgBridgeCallClaim)
+		if !ok {
+			continue
+		}
+		to := cctypes.ExternalAddrToHexAddr(st.Chains[0].Name, cl.To)
+		for _, dp := range st.Evm.Programs {
+			if !dp.OK {
+				continue
+			}
+			for _, a := range dp.Addrs {
+				if a == to {
+					return "inbound-call-to-program/" + classifyProgram(dp)
+				}
+			}
+		}
+	}
+	return ""
+}
+
+func classifyProgram(dp *DeployedProgram) string {
+	running, keeperLevel := false, false
+	for _, nd := range dp.Spec.Nodes {
+		for _, a := range nd.Acts {
+			if a.K != "pre" {
+				continue
+			}
+			switch {
+			case strings.HasPrefix(a.T, "token:") || a.T == "wfx":
+				running = true
+			case a.T == "crosschain" && (a.M == "crossChain" || a.M == "increaseBridgeFee"):
+				running = true
+			case a.T == "crosschain" && (a.M == "bridgeCall" || a.M == "executeClaim" || a.M == "cancelSendToExternal"):
+				keeperLevel = true
+			}
+		}
+	}
+	switch {
+	case running && keeperLevel:
+		return "running-evm-token-access+keeper-level-conversion"
+	case keeperLevel:
+		return "keeper-level-conversion"
+	case running:
+		return "running-evm-token-access"
+	}
+	return "other"
 }
 
 // programSite classifies a program run by what the kept calls did to tokens: the running EVM
@@ -346,7 +434,25 @@ func (e EvmEngine) genC08(r *Run) Step {
 		return Tx{K: "pcall", S: signer, A: A("t", t, "m", meth, "args", strings.Join(args, "|")), Gas: 3_000_000}
 	}
 	other := func() string { return fmt.Sprintf("$user%d", r.Rng.IntN(st.NUsers)) }
-	switch r.Rng.IntN(15) {
+	switch r.Rng.IntN(16) {
+	case 15:
+		if r.Pct(25) {
+			// the externally-owned token destroys itself (only the assembled token has this entry point)
+			return blk(Tx{K: "pcall", S: signer, A: A("t", "$TST", "m", "41c0e1b5", "args", ""), Gas: 1_000_000})
+		}
+		// conversion to an address that must not receive: a module account
+		mod := []string{erc20types.ModuleName, erc20types.ModuleName, "eth", "distribution"}[r.Rng.IntN(4)]
+		if r.Pct(50) {
+			denom = "tst"
+		}
+		amt := int64(1 + r.Rng.IntN(3000))
+		if bal := w.App.BankKeeper.GetBalance(w.Ctx(), w.Key("user", u).Acc(), denom).Amount; bal.IsPositive() && bal.IsInt64() && bal.Int64() < amt {
+			amt = bal.Int64()
+		}
+		if denom == "FX" {
+			amt *= 1e9
+		}
+		return blk(Tx{K: "convert_coin", S: signer, A: A("denom", denom, "amount", amt, "receiver", common.BytesToAddress(authtypes.NewModuleAddress(mod)).Hex())})
 	case 14:
 		// ERC-20 out through the bridge with more than the sender owns: must be refused whether the token
 		// reverts or merely returns false (MsgConvertERC20 itself cannot be sent on this tree: its signer
